@@ -289,7 +289,7 @@ func list(vs []V, dropNil bool) string {
 }
 
 func TestIteratorProtocol(t *testing.T) {
-	vt.Check(t, vt.N(1500, 50000), func(rt *rapid.T) {
+	vt.Check(t, vt.N(1500, 150000), func(rt *rapid.T) {
 		in := interp.Shared()
 		m := &machine{in: in, env: object.NewEnclosedEnv(in.Global), models: map[string]*state{}, ops: map[string]int{}}
 		m.body = genBody().Draw(rt, "body")
